@@ -15,7 +15,9 @@ FINISH = dict(level="proof", rule=(
     "histories of 10..40 operations over a tree of at most 10 groups (names from a pool of 4, so that New meets existing "
     "groups), up to 3 multi-threaded processes, directories pre-made in a subset of the controllers; 40 (thorough 400) rounds of "
     "16 concurrent creators; statistics files: cpu.stat with the usage line at any position, extra fields, duplicates, missing "
-    "line, values up to and beyond 2^63, single-number files with spaces, signs, overflow, garbage.  Non-trivial: a history in "
+    "line, values up to and beyond 2^63, single-number files with spaces, signs, overflow, garbage.  v1 histories over handles with "
+    "different controller sets on the same groups and processes already placed in some of the controllers (by another handle or by "
+    "somebody else) before AddProc; populations of 3000 (thorough 4000) live siblings from Random per hierarchy.  Non-trivial: a history in "
     "which some New met an existing group and some Destroy ran; distinct = distinct histories / file contents."))
 
 HDR = "From Coq Require Import List NArith ZArith.\nImport ListNotations.\nFrom GS Require Import Cgroup.Tree Cgroup.EvalCgroup.\n"
@@ -120,6 +122,146 @@ def gen_history(r, root, v2):
     return ops, handles
 
 
+def gen_subset_history(r, root):
+    """v1 only: handles over DIFFERENT controller sets on the same groups (cgroup.New / OpenExisting with a subset, handle.New below
+    them), directories made by somebody else, and processes that are already in the group's directory of SOME controllers (put there
+    through another handle or by somebody else writing cgroup.procs) when AddProc is called.  The generator keeps the state the
+    property speaks about (which directory exists, who made it, where each process is per controller) to ask only for operations
+    that cannot fail by design (rmdir of a busy directory, AddProc into a directory that is not there)."""
+    ops = [{"op": "pkgnew", "prefix": root, "as": 0}]
+    dirs = {(c, root) for c in CTRLS}
+    H = {0: {"path": root, "ctrls": list(CTRLS), "created": list(CTRLS), "existing": False, "alive": True}}
+    paths = [root]
+    procs, member = {}, {}
+    nh = 1
+
+    def subset():
+        k = r.random()
+        if k < 0.35:
+            cs = [r.choice(CTRLS)]
+        elif k < 0.75:
+            cs = r.sample(CTRLS, 2)
+        elif k < 0.9:
+            cs = r.sample(CTRLS, r.randint(3, 4))
+        else:
+            cs = list(CTRLS)
+        return [c for c in CTRLS if c in cs]
+
+    def make(path, cs):
+        created, ex = [], False
+        for c in cs:
+            if (c, path) in dirs:
+                ex = ex or not created
+            else:
+                dirs.add((c, path))
+                created.append(c)
+        if path not in paths:
+            paths.append(path)
+        return created, ex
+
+    def usable(h):
+        return H[h]["alive"] and all((c, H[h]["path"]) in dirs for c in H[h]["ctrls"])
+
+    def free(c, path):
+        return not any(d[0] == c and d[1].startswith(path + "/") for d in dirs) and \
+            not any(procs[p] and member[p].get(c) == path for p in procs)
+
+    def destroy(h):
+        ops.append({"op": "destroy", "h": h})
+        H[h]["alive"] = False
+        if not H[h]["existing"]:
+            for c in H[h]["created"]:
+                dirs.discard((c, H[h]["path"]))
+
+    for _ in range(r.randint(15, 45)):
+        k = r.random()
+        live = [h for h in H if usable(h)]
+        alive = [p for p in procs if procs[p]]
+        if k < 0.22:
+            path = root + "/" + r.choice(["a", "b", "c"])
+            cs = subset()
+            created, ex = make(path, cs)
+            ops.append({"op": "pkgnew", "prefix": path, "ctrls": cs, "as": nh})
+            H[nh] = {"path": path, "ctrls": cs, "created": created, "existing": ex, "alive": True}
+            nh += 1
+        elif k < 0.30 and live:
+            h = r.choice(live)
+            if H[h]["path"].count("/") < 2:
+                path = H[h]["path"] + "/" + r.choice(["a", "b", "k"])
+                created, ex = make(path, H[h]["ctrls"])
+                ops.append({"op": "new", "h": h, "name": path.rsplit("/", 1)[1], "as": nh})
+                H[nh] = {"path": path, "ctrls": list(H[h]["ctrls"]), "created": created, "existing": ex, "alive": True}
+                nh += 1
+        elif k < 0.38:
+            path = r.choice(paths + [root + "/a", root + "/b"])
+            cs = subset()
+            ok = all((c, path) in dirs for c in cs)
+            ops.append({"op": "open", "prefix": path, "ctrls": cs, "as": nh, "_expect_err": not ok})
+            if ok:
+                H[nh] = {"path": path, "ctrls": cs, "created": [], "existing": True, "alive": True}
+            nh += 1
+        elif k < 0.44:
+            path, c = root + "/" + r.choice(["a", "b", "c"]), r.choice(CTRLS)
+            if (c, path) not in dirs:
+                ops.append({"op": "rawmkdir", "ctrl": c, "prefix": path})
+                dirs.add((c, path))
+                if path not in paths:
+                    paths.append(path)
+        elif k < 0.52 and len(procs) < 3:
+            i = len(procs)
+            ops.append({"op": "spawn", "as": i, "threads": r.randint(0, 2)})
+            ops.append({"op": "where", "proc": i, "_initial": True, "_ids": list(range(nh, nh + 5))})
+            nh += 5
+            procs[i], member[i] = True, {}
+        elif k < 0.78 and alive and live:
+            h, p = r.choice(live), r.choice(alive)
+            # half of the time: a process that is in the group for some of the handle's controllers and not for others
+            part = [(hh, pp) for hh in live for pp in alive
+                    if 0 < sum(1 for c in H[hh]["ctrls"] if member[pp].get(c) == H[hh]["path"]) < len(H[hh]["ctrls"])]
+            if part and r.random() < 0.5:
+                h, p = r.choice(part)
+            ops.append({"op": "addproc", "h": h, "proc": p})
+            for c in H[h]["ctrls"]:
+                member[p][c] = H[h]["path"]
+            ops.append({"op": "where", "proc": p, "_expect_map": dict(member[p]), "_after": "AddProc through handle %d (%s)" % (h, ",".join(H[h]["ctrls"]))})
+            others = [q for q in alive if q != p]
+            if others and r.random() < 0.6:
+                q = r.choice(others)
+                ops.append({"op": "where", "proc": q, "_expect_map": dict(member[q]), "_after": "AddProc of another process"})
+        elif k < 0.86 and alive:
+            p, c = r.choice(alive), r.choice(["cpu", "cpuacct", "memory", "pids"])
+            cand = sorted(d[1] for d in dirs if d[0] == c and d[1] != member[p].get(c))
+            if cand:
+                path = r.choice(cand)
+                ops.append({"op": "rawaddproc", "ctrl": c, "prefix": path, "proc": p, "as": nh})
+                nh += 1
+                member[p][c] = path
+                ops.append({"op": "where", "proc": p, "_expect_map": dict(member[p]), "_after": "somebody else wrote the pid into cgroup.procs of %s" % c})
+        elif k < 0.92:
+            ops.append({"op": "exists", "prefix": r.choice(paths + [root + "/a", root + "/c"])})
+        else:
+            cand = [h for h in H if h != 0 and H[h]["alive"] and
+                    (H[h]["existing"] or all(free(c, H[h]["path"]) for c in H[h]["created"] if (c, H[h]["path"]) in dirs))]
+            if cand:
+                h = r.choice(cand)
+                destroy(h)
+                ops.append({"op": "exists", "prefix": H[h]["path"]})
+    for p in procs:
+        if procs[p]:
+            ops.append({"op": "kill", "proc": p})
+            procs[p] = False
+    for path in sorted(paths, key=lambda q: (-q.count("/"), q)):
+        for h in sorted(H):
+            if H[h]["alive"] and H[h]["path"] == path:
+                destroy(h)
+        for c in CTRLS:
+            if (c, path) in dirs:
+                ops.append({"op": "rawrmdir", "ctrl": c, "prefix": path})
+                dirs.discard((c, path))
+    ops.append({"op": "exists", "prefix": root})
+    return ops, H
+
+
 def run(c):
     exe = c.build_harness("h_c20")
     c.build_probe("target")
@@ -139,11 +281,11 @@ def run(c):
                     pass
 
     # ---------------- (a) histories
-    def histories(v2, nh):
+    def histories(v2, nh, subsets=False):
         cases = []
         for i in range(nh):
-            root = "%s_%s%d" % (tok, "u" if v2 else "h", i)
-            ops, handles = gen_history(r, root, v2)
+            root = "%s_%s%d" % (tok, "s" if subsets else "u" if v2 else "h", i)
+            ops, handles = gen_subset_history(r, root) if subsets else gen_history(r, root, v2)
             cases.append({"id": i, "root": root, "ops": ops})
         wrap_exe, wrap_args = exe, ()
         if v2:
@@ -155,9 +297,10 @@ def run(c):
             names = {}
             num = lambda s: names.setdefault(s, len(names) + 1)
             comps = lambda p: coq_list([str(num(t)) for t in p.strip("/").split("/") if t])
-            cs = "[0]" if v2 else "[0; 1; 2; 3; 4]"
+            cs_all = "[0]" if v2 else "[0; 1; 2; 3; 4]"
             hist, met_existing, destroyed = [], False, False
-            procs_idx = {}
+            procs_idx, initial = {}, {}
+            x["_ctrls"] = {}
             for op, ob in zip(x["ops"], o["obs"]):
                 k = op["op"]
                 rep = {"hierarchy": "v2" if v2 else "v1", "history": [{kk: vv for kk, vv in q.items() if not kk.startswith("_")} for q in x["ops"]], "observed": o["obs"]}
@@ -173,7 +316,11 @@ def run(c):
                     if k == "new":
                         path = x["_paths"][int(op["h"])] + "/" + op["name"]
                     x.setdefault("_paths", {})[int(op["as"])] = path
-                    met_existing = met_existing or (k == "new" and ob["existing"])
+                    # the controllers of the handle: asked for (a subset), inherited from the parent handle, or all
+                    cl = x["_ctrls"].get(int(op["h"])) if k == "new" else op.get("ctrls")
+                    x["_ctrls"][int(op["as"])] = cl
+                    cs = coq_list([str(CTRLS.index(cn)) for cn in cl]) if cl and not v2 else cs_all
+                    met_existing = met_existing or ((k == "new" or (subsets and k == "pkgnew")) and ob["existing"])
                     hist.append("HOp (%s %s %s) (Some %s)" % ("OOpen" if k == "open" else "ONew", comps(path), cs, "true" if ob["existing"] else "false"))
                 elif k == "rawmkdir":
                     hist.append("HOp (ORawMkdir (%d, %s)) None" % (CTRLS.index(op["ctrl"]), comps(op["prefix"])))
@@ -189,10 +336,26 @@ def run(c):
                         c.finding_or_violation({"kind": "cgroup", "what": "AddProc fails", "error": ob["err"][:60]}, rep, klass="addproc-fails")
                     hidx = sorted(x["_paths"]).index(int(op["h"]))
                     hist.append("HOp (OAddProc %d %d) None" % (hidx, int(op["proc"])))
+                elif k == "rawaddproc":
+                    if ob.get("err"):
+                        raise RuntimeError("rawaddproc failed: %s" % ob["err"])
+                    # in the model: somebody else's handle on that one directory, and its AddProc
+                    x["_paths"][int(op["as"])] = op["prefix"]
+                    hist.append("HOp (OOpen %s [%d]) (Some true)" % (comps(op["prefix"]), CTRLS.index(op["ctrl"])))
+                    hist.append("HOp (OAddProc %d %d) None" % (sorted(x["_paths"]).index(int(op["as"])), int(op["proc"])))
                 elif k == "where":
                     w = ob["where"]
                     keys = ["v2"] if v2 else CTRLS
                     per = []
+                    if op.get("_initial"):
+                        # where the process starts (the group of the harness): told to the model as a placement by somebody else
+                        initial[int(op["proc"])] = {kk: sorted(set(w.get(kk) or ["/"]))[0] for kk in keys}
+                        for j, kk in enumerate(keys):
+                            g = initial[int(op["proc"])][kk]
+                            if g != "/":
+                                x["_paths"][int(op["_ids"][j])] = g
+                                hist.append("HOp (OOpen %s [%d]) (Some true)" % (comps(g), j))
+                                hist.append("HOp (OAddProc %d %d) None" % (sorted(x["_paths"]).index(int(op["_ids"][j])), int(op["proc"])))
                     for kk in keys:
                         gs = set(w.get(kk) or [])
                         if len(gs) != 1:
@@ -202,6 +365,28 @@ def run(c):
                         if op.get("_expect") and gs != {"/" + op["_expect"]}:
                             c.finding_or_violation({"kind": "cgroup", "what": "AddProc returned without moving the process into the group", "controller": kk,
                                                     "handle_of_existing_group": op["_via_existing"]}, dict(rep, expected_group="/" + op["_expect"], where=w), klass="not-moved")
+                        if "_expect_map" in op:
+                            # AddProc really moves the process, in every controller of the handle, and only there; other processes stay
+                            want = op["_expect_map"].get(kk)
+                            want = "/" + want if want else initial[int(op["proc"])][kk]
+                            if gs != {want} and (int(op["proc"]), kk, want) not in x.setdefault("_reported", set()):
+                                x["_reported"].add((int(op["proc"]), kk, want))      # one report per misplacement, not one per later look
+                                moved = op["_after"].startswith("AddProc through") and op["_expect_map"].get(kk)
+                                # the part of the history that concerns this process: its placements, and how the handles used for them were made
+                                upto = next(j for j, q in enumerate(x["ops"]) if q is op)
+                                mine = [j for j in range(upto + 1) if (x["ops"][j]["op"] in ("addproc", "rawaddproc", "where", "kill") and x["ops"][j].get("proc") == op["proc"])
+                                        or (x["ops"][j]["op"] == "spawn" and x["ops"][j]["as"] == op["proc"])]
+                                hs = {x["ops"][j]["h"] for j in mine if x["ops"][j]["op"] == "addproc"}
+                                mine = sorted(set(mine) | {j for j in range(upto) if x["ops"][j]["op"] in ("pkgnew", "new", "open") and x["ops"][j].get("as") in hs})
+                                c.finding_or_violation({"kind": "cgroup", "what": "AddProc returned without moving the process into the group of every controller of the handle"
+                                                        if moved else "a process is not in the group it was last put into", "controller": kk, "history_class": "controller-subsets"},
+                                                       dict(rep, process=int(op["proc"]), checked_at_step=upto, checked_after=op["_after"], controller=kk, expected_group=want, observed_groups=sorted(gs),
+                                                            expected_per_controller={q: ("/" + v if v else initial[int(op["proc"])][q]) for q, v in
+                                                                                     ((q, op["_expect_map"].get(q)) for q in keys)},
+                                                            observed_per_controller={q: sorted(set(w.get(q) or [])) for q in keys},
+                                                            steps_that_concern_the_process=[{"step": j, "op": {a: b for a, b in x["ops"][j].items() if not a.startswith("_")},
+                                                                                             "observed": o["obs"][j]} for j in mine]),
+                                                       klass="not-moved-subsets")
                     per += ["[]"] * (5 - len(per))
                     hist.append("HWhere %d %s" % (int(op["proc"]), coq_list(per)))
                 elif k == "exists":
@@ -215,22 +400,23 @@ def run(c):
                         hist.append("HOp (ODestroy %d) None" % hidx)
             items.append(coq_list(hist))
             src.append(x)
-            c.count(json.dumps(x["ops"]), nontrivial=met_existing and destroyed, klass="history:%s" % ("v2" if v2 else "v1"))
+            c.count(json.dumps(x["ops"]), nontrivial=met_existing and destroyed, klass="history:%s" % ("v1-controller-subsets" if subsets else "v2" if v2 else "v1"))
             left = o["obs"][-1].get("exists", {})
             if any(left.values()):
                 c.finding_or_violation({"kind": "cgroup", "what": "destroying every handle leaves the root group behind"},
                                        {"history": x["ops"][-6:], "observed": o["obs"][-6:]}, klass="residue")
             cleanup(x["root"], v2)
         body = HDR + "Definition cs : list (list hop) := %s.\nDefinition M := Eval vm_compute in failing history_ok cs.\nPrint M.\n" % coq_list(items)
-        for i in c.parse_nums(c.parse_printed(c.coq_eval("hist_%s" % ("v2" if v2 else "v1"), body, timeout=1200), "M").replace("%N", "")):
+        for i in c.parse_nums(c.parse_printed(c.coq_eval("hist_%s" % ("v1s" if subsets else "v2" if v2 else "v1"), body, timeout=1200), "M").replace("%N", "")):
             dis.append({"relation": "history_ok (Existing flags, directories per controller and process placement = step of the model)",
                         "hierarchy": "v2" if v2 else "v1", "history": [{kk: vv for kk, vv in q.items() if not kk.startswith("_")} for q in src[i]["ops"]],
                         "observed": obs[i]["obs"]})
-        c.cov["histories_%s" % ("v2" if v2 else "v1")] = len(cases)
+        c.cov["histories_%s" % ("v1_controller_subsets" if subsets else "v2" if v2 else "v1")] = len(cases)
         return obs
 
     o1 = histories(False, 24 if c.quick() else 200)
     histories(True, 10 if c.quick() else 80)
+    histories(False, 16 if c.quick() else 120, subsets=True)
     c.sample({"history": [q for q in o1[0]["obs"][:10]]})
 
     # ---------------- (b) concurrent creators
@@ -301,6 +487,72 @@ def run(c):
             i += 1
         cleanup(root, v2)
     c.cov["concurrent_rounds"] = 2 * rounds
+
+    # ---------------- (b2) populations of live siblings from Random: thousands of groups made through one parent handle that are all
+    # alive at the same time (a busy judge, or groups that leaked), made partly one after the other and partly by concurrent workers.
+    # What the user relies on: every handle returned by Random stands for a group of its own, made by that call.
+    rp = c.rng("populations")
+    npop = 3000 if c.quick() else 4000
+    for v2 in (False, True):
+        hname = "v2" if v2 else "v1"
+        root = "%s_%sp" % (tok, "u" if v2 else "h")
+        pcs = rp.choice([["cpuacct"], ["cpuacct", "pids"], ["cpu", "cpuacct"], ["pids"]])
+        pattern = rp.choice(["run*", "*.job", "s*x", "*", "box-*"])
+        first = rp.choice([npop // 6, npop // 3, npop // 2])
+        stages = [(first, 1), (npop - first, rp.choice([4, 8, 16]))]
+        pops = [{"op": "pkgnew", "prefix": root, "as": 0, "ctrls": pcs}]
+        base = 10
+        for n, workers in stages:
+            pops.append({"op": "random_many", "h": 0, "pattern": pattern, "n": n, "workers": workers, "as": base, "prefix": root})
+            base += n
+        pops.append({"op": "destroy_many", "as": 10, "n": npop, "prefix": root})
+        pops += [{"op": "destroy", "h": 0}, {"op": "exists", "prefix": root}]
+        wrap_exe, wrap_args = exe, ()
+        if v2:
+            wrap_exe, wrap_args = "/usr/bin/unshare", ("-m", "--propagation", "private", "sh", "-c", "mount -t cgroup2 none /sys/fs/cgroup && exec " + exe)
+        ob = c.run_harness(wrap_exe, [{"id": 0, "ops": pops}], args=wrap_args, env=env, timeout=900)[0]["obs"]
+        if ob[0].get("err"):
+            raise RuntimeError("population scenario: the parent group cannot be made: %s" % ob[0]["err"])
+        setting = {"hierarchy": hname, "parent": root, "parent_controllers": "v2" if v2 else pcs, "pattern": pattern,
+                   "stages": [{"calls_of_Random": n, "concurrent_workers": w} for n, w in stages], "all_groups_alive_at_once": True}
+        names, flags, counts = [], [], []
+        for op, o in zip(pops, ob):
+            if op["op"] == "random_many":
+                names += o["names"]
+                flags += o["existing"]
+                counts.append({"handles_returned_so_far": sum(1 for e in flags if not isinstance(e, str)), "directories_below_the_parent": o["children"]})
+                c.count("population-%s-%d-%d" % (hname, op["n"], op["workers"]), nontrivial=True, klass="random-population:%s" % hname)
+        errors = [(i, e) for i, e in enumerate(flags) if isinstance(e, str)]
+        shared = [i for i, e in enumerate(flags) if e is True]
+        by_name = {}
+        for i, nm in enumerate(names):
+            if nm:
+                by_name.setdefault(nm, []).append(i)
+        dup = {nm: l for nm, l in by_name.items() if len(l) > 1}
+        if errors:
+            c.finding_or_violation({"kind": "cgroup-random-population", "what": "Random fails among many live siblings", "hierarchy": hname},
+                                   dict(setting, failing_calls=[{"call": i, "error": e} for i, e in errors[:5]]), klass="random-population-error")
+        if shared or dup:
+            # handed out twice: a call met the group of a live handle (Existing() is true, or the same group came back from two calls)
+            c.finding_or_violation({"kind": "cgroup-random-population", "what": "Random hands out a group that another live handle already stands for", "hierarchy": hname},
+                                   dict(setting, expected="every call returns a handle with Existing() == false on a group that no other live handle stands for; "
+                                        "%d handles = %d groups below the parent" % (counts[-1]["handles_returned_so_far"], counts[-1]["handles_returned_so_far"]),
+                                        observed={"handles_with_Existing_true": [{"call": i, "group": names[i], "calls_that_returned_this_group": by_name.get(names[i])} for i in shared[:8]],
+                                                  "number_of_handles_with_Existing_true": len(shared),
+                                                  "groups_returned_by_more_than_one_call": [{"group": nm, "calls": l} for nm, l in sorted(dup.items())[:8]],
+                                                  "distinct_groups_named": len(by_name), "after_each_stage": counts}), klass="random-population-shared")
+        elif any(v != k["handles_returned_so_far"] for k in counts for v in k["directories_below_the_parent"].values()):
+            c.finding_or_violation({"kind": "cgroup-random-population", "what": "the number of groups below the parent is not the number of handles Random returned", "hierarchy": hname},
+                                   dict(setting, after_each_stage=counts), klass="random-population-count")
+        d = ob[len(stages) + 1]
+        if d["errors"] or any(v != 0 for v in d["children"].values()):
+            c.finding_or_violation({"kind": "cgroup-random-population", "what": "destroying every handle of the population does not remove exactly its groups", "hierarchy": hname},
+                                   dict(setting, destroy_errors=d["errors"], first_error=d["first_error"], directories_left_below_the_parent=d["children"]), klass="random-population-destroy")
+        elif any(ob[-1]["exists"].values()):
+            c.finding_or_violation({"kind": "cgroup-random-population", "what": "the parent of the population is still there after its Destroy", "hierarchy": hname},
+                                   dict(setting, exists=ob[-1]["exists"], destroy_error=ob[-2].get("err")), klass="random-population-destroy")
+        c.cov["random_population_%s" % hname] = len(names)
+        cleanup(root, v2)
 
     # ---------------- (c) limits and usage (v1: the controllers are bound to v1 on this machine)
     root = tok + "_l"
@@ -402,7 +654,9 @@ def run(c):
             c.count("burn-%d" % bi, nontrivial=True, klass="usage")
             # a unit check (a reading in microseconds would be 1000 times smaller): wide enough for a loaded machine, where the accounting of
             # the group runs ahead of the child's own CPU clock
-            ok_cpu = o.get("cpu_err") is None and ms * 0.5e6 <= o["cpu_ns"] <= ms * 30e6 + 3e8
+            # (seen on a machine with 60 runnable processes: 2.3 s charged to the group for a child that burnt 40 ms; a reading in the wrong
+            # unit is off by a factor of 1000 either way, so the window is half .. 400 times the child's own time)
+            ok_cpu = o.get("cpu_err") is None and ms * 0.5e6 <= o["cpu_ns"] <= ms * 400e6 + 1e9
             ok_mem = o.get("mem_err") is None and mb * (1 << 20) * 0.9 <= o["mem_peak"] <= mb * (1 << 20) + (64 << 20)
             if not (ok_cpu and ok_mem):
                 c.finding_or_violation({"kind": "cgroup", "what": "usage readings are not in nanoseconds / bytes", "cpu_ok": ok_cpu, "mem_ok": ok_mem},
